@@ -120,6 +120,86 @@ theorem execS_alloc_eq (x : Sym) (shape : List Expr) (σ : State V) :
                     : State V)) := by
   simp only [execS]; rfl
 
+/-- what a call does once its arguments are bound (everything but the final `leave`) -/
+def callCore (fargs : List FnArg) (preds : List Expr) (body : List Stmt)
+    (ce : List (Sym × Int)) (cv : List (Sym × View)) (heap : List (List (Option V)))
+    (cfg : List ((String × String) × CfgVal V)) : Except Err (State V) :=
+  if !noAlias cv then throw .alias
+  else do
+    checkShapes ({ env := ce, views := cv, heap := heap, cfg := cfg } : State V) fargs
+    checkPreds ({ env := ce, views := cv, heap := heap, cfg := cfg } : State V) preds
+    execL ext body { env := ce, views := cv, heap := heap, cfg := cfg }
+
+theorem execP_eq_core (nm : String) (fargs : List FnArg) (preds : List Expr) (body : List Stmt)
+    (args : List Expr) (σ : State V) :
+    execP ext (.mk nm fargs preds body) args σ =
+      (bindArgs σ fargs args [] [] >>= fun p =>
+        (callCore ext fargs preds body p.1 p.2 σ.heap σ.cfg).map (State.leave σ)) := by
+  simp only [execP, callCore]
+  cases bindArgs σ fargs args [] [] with
+  | error e => rfl
+  | ok p =>
+    obtain ⟨ce, cv⟩ := p
+    simp only [bind, Except.bind]
+    cases noAlias cv with
+    | false => rfl
+    | true =>
+      simp only [Bool.not_true, Bool.false_eq_true, if_false]
+      cases checkShapes ({ env := ce, views := cv, heap := σ.heap, cfg := σ.cfg } : State V) fargs with
+      | error e => rfl
+      | ok u =>
+        cases checkPreds ({ env := ce, views := cv, heap := σ.heap, cfg := σ.cfg } : State V) preds with
+        | error e => rfl
+        | ok u' =>
+          cases execL ext body ({ env := ce, views := cv, heap := σ.heap, cfg := σ.cfg } : State V) <;> rfl
+
+theorem bindArgs_sim {θ : Subst} {σc σ : State V} (h : Rel θ σc σ) (hW : hasWin θ = true → W) :
+    ∀ (fs : List FnArg) (as bs : List Expr) (ce : List (Sym × Int)) (cv : List (Sym × View)),
+    matchArgs θ fs as bs = true → Sim W Eq (bindArgs σc fs as ce cv) (bindArgs σ fs bs ce cv)
+  | [], [], [], _, _, _ => Sim.of_eq rfl
+  | [], [], _ :: _, _, _, hm => by simp [matchArgs] at hm
+  | [], _ :: _, _, _, _, hm => by simp [matchArgs] at hm
+  | ⟨x, .ctrl k⟩ :: fs, [], _, _, _, hm => by simp [matchArgs] at hm
+  | ⟨x, .scalar⟩ :: fs, [], _, _, _, hm => by simp [matchArgs] at hm
+  | ⟨x, .tensor _ _⟩ :: fs, [], _, _, _, hm => by simp [matchArgs] at hm
+  | ⟨x, .ctrl k⟩ :: fs, _ :: _, [], _, _, hm => by simp [matchArgs] at hm
+  | ⟨x, .scalar⟩ :: fs, _ :: _, [], _, _, hm => by simp [matchArgs] at hm
+  | ⟨x, .tensor _ _⟩ :: fs, _ :: _, [], _, _, hm => by simp [matchArgs] at hm
+  | ⟨x, .ctrl k⟩ :: fs, a :: as, b :: bs, ce, cv, hm => by
+    simp only [matchArgs, Bool.and_eq_true] at hm
+    simp only [bindArgs]
+    refine (Sim.of_exEq (matchC_sound h hm.1)).bind (fun v v' hv => ?_)
+    subst hv
+    by_cases hk : k = CtrlKind.size ∧ v ≤ 0
+    · simp only [hk, and_self, if_true]
+      exact Sim.error _ _
+    · simp only [hk, if_false]
+      exact bindArgs_sim h hW fs as bs _ cv hm.2
+  | ⟨x, .scalar⟩ :: fs, a :: as, b :: bs, ce, cv, hm => by
+    simp only [matchArgs, Bool.and_eq_true] at hm
+    simp only [bindArgs]
+    refine (matchV_sound h hW hm.1).bind (fun v v' hv => ?_)
+    subst hv
+    exact bindArgs_sim h hW fs as bs ce _ hm.2
+  | ⟨x, .tensor _ _⟩ :: fs, a :: as, b :: bs, ce, cv, hm => by
+    simp only [matchArgs, Bool.and_eq_true] at hm
+    simp only [bindArgs]
+    refine (matchV_sound h hW hm.1).bind (fun v v' hv => ?_)
+    subst hv
+    exact bindArgs_sim h hW fs as bs ce _ hm.2
+
+/-- a nested call with matching arguments -/
+theorem execP_sim {θ : Subst} {σc σ : State V} (h : Rel θ σc σ) (hp : pureSubst θ = true)
+    (hW : hasWin θ = true → W) (g : Proc) (as bs : List Expr)
+    (hm : matchArgs θ g.args as bs = true) :
+    Sim W (Rel θ) (execP ext g as σc) (execP ext g bs σ) := by
+  obtain ⟨nm, fargs, preds, body⟩ := g
+  rw [execP_eq_core, execP_eq_core]
+  refine (bindArgs_sim h hW fargs as bs [] [] hm).bind (fun p p' hpp => ?_)
+  subst hpp
+  rw [h.heap, h.cfg]
+  exact (Sim.of_eq rfl).map _ _ (fun a b hab => by subst hab; exact h.leave hp rfl rfl)
+
 /-! ### the simulation -/
 
 mutual
@@ -271,8 +351,20 @@ theorem matchS_sound : ∀ (s s' : Stmt) (θ θ' : Subst) (σc σ : State V),
         exact Sim.pure (hr.bindBuf hp x x' v hc.2 rfl rfl rfl rfl hr.heap hr.cfg)
       · cases hm
     | _ => simp [matchS] at hm
-  | .call f args, s', θ, θ', σc, σ, hp, hW, hr, hm => by
-    cases s' <;> simp [matchS] at hm
+  | .call g args, s', θ, θ', σc, σ, hp, hW, hr, hm => by
+    cases s' with
+    | call g' args' =>
+      simp only [matchS] at hm
+      split at hm
+      · rename_i hc
+        cases hm
+        simp only [Bool.and_eq_true] at hc
+        have := eqP_eq _ _ hc.1
+        subst this
+        simp only [execS]
+        exact execP_sim ext hr hp hW g args args' hc.2
+      · cases hm
+    | _ => simp [matchS] at hm
 theorem matchL_sound : ∀ (ss ss' : List Stmt) (θ θ' : Subst) (σc σ : State V),
     pureSubst θ = true → (hasWin θ = true → W) → Rel θ σc σ → matchL θ ss ss' = some θ' →
     Sim W (Rel θ') (execL ext ss σc) (execL ext ss' σ)
